@@ -156,6 +156,14 @@ pub fn xonly_of(bytes: &[u8]) -> Option<[u8; 32]> {
     Some(r)
 }
 
+/// Compressed serialization of a 33/65-byte public key (None for other lengths / invalid points).
+pub fn compressed_of(bytes: &[u8]) -> Option<Vec<u8>> {
+    if bytes.len() != 33 && bytes.len() != 65 {
+        return None;
+    }
+    secp256k1::PublicKey::from_slice(bytes).ok().map(|p| p.serialize().to_vec())
+}
+
 /// Secret key for serialized public key bytes, if it belongs to the universe.  The returned
 /// secret corresponds to the *given* public key (negated if needed for 33/65-byte forms).
 pub fn secret_for(bytes: &[u8]) -> Option<SecretKey> {
